@@ -123,6 +123,7 @@ func EngineUnits(prop string, t Tier, seed uint64) ([]engine.Unit, error) {
 		return allKindUnits(cfg, seed, fewColl, 6*t.F), nil
 	case "C03":
 		cfg := base(prop, engine.MRange, t)
+		cfg.ClosedAllQueries = true
 		cfg.Histories = 50 * t.F
 		cfg.Queries = 8
 		cfg.CheckEvery = []int{2, 5, 10}
@@ -133,6 +134,7 @@ func EngineUnits(prop string, t Tier, seed uint64) ([]engine.Unit, error) {
 		return us, nil
 	case "C04":
 		cfg := base(prop, engine.MPrefix, t)
+		cfg.ClosedAllQueries = true
 		cfg.Histories = 120 * t.F
 		cfg.Queries = 10
 		cfg.CheckEvery = []int{2, 5, 10}
@@ -176,7 +178,15 @@ func EngineUnits(prop string, t Tier, seed uint64) ([]engine.Unit, error) {
 		cfg.PoolMax = 80
 		cfg.Sweeps = 3 * t.F
 		cfg.CheckEvery = []int{1000}
-		return allKindUnits(cfg, seed, fewColl, 6*t.F), nil
+		us := allKindUnits(cfg, seed, fewColl, 6*t.F)
+		if t.F > 1 {
+			// long histories: the shape is checked after every operation on trees of thousands of keys
+			lc := *cfg
+			lc.Histories, lc.Sweeps, lc.Closed = 0, 0, false
+			lc.LongHistories, lc.LongOps = 1, 12000
+			us = append(us, allKindUnits(&lc, seed, fewColl[:2], 2)...)
+		}
+		return us, nil
 	case "C14":
 		cfg := base(prop, engine.MSeq, t)
 		cfg.Histories = 10 * t.F
